@@ -296,19 +296,19 @@ func shrinkModelFinding(c *Case, f *Finding, index string) *Finding {
 
 // Result is what a property check writes for the python driver.
 type Result struct {
-	Property     string            `json:"property"`
-	Seed         uint64            `json:"seed"`
-	Tier         string            `json:"tier"`
-	Cases        int               `json:"cases"`
-	Steps        int               `json:"steps"`
-	Distinct     int               `json:"distinct_nontrivial"`
-	Rule         string            `json:"rule"`
-	Tags         map[string]int    `json:"tags"`
-	Samples      []json.RawMessage `json:"samples"`
-	Findings     []*Finding        `json:"findings"`
-	ModelCompared int              `json:"model_compared_steps"`
-	SpecChecked  int               `json:"spec_checked_steps"`
-	Notes        []string          `json:"notes,omitempty"`
+	Property      string            `json:"property"`
+	Seed          uint64            `json:"seed"`
+	Tier          string            `json:"tier"`
+	Cases         int               `json:"cases"`
+	Steps         int               `json:"steps"`
+	Distinct      int               `json:"distinct_nontrivial"`
+	Rule          string            `json:"rule"`
+	Tags          map[string]int    `json:"tags"`
+	Samples       []json.RawMessage `json:"samples"`
+	Findings      []*Finding        `json:"findings"`
+	ModelCompared int               `json:"model_compared_steps"`
+	SpecChecked   int               `json:"spec_checked_steps"`
+	Notes         []string          `json:"notes,omitempty"`
 }
 
 func (r *Result) addCase(c *Case) {
